@@ -45,15 +45,29 @@ def norm(c):
     return c
 
 
-def check_join(ctx, backend, base, r, literal=None):
+def check_join(ctx, backend, base, r, literal=None, via=None):
     Y = ctx.yarl(backend)
     try:
         B = Y.URL(base)
         R = Y.URL(r)
+        # the base may itself be the result of a modifier (its cache then holds values computed by that modifier)
+        if via == "parent":
+            B = (B / "zz").parent if not B.raw_path.endswith("/") or B.raw_path == "/" else B
+            B = Y.URL(base + ("" if base.endswith("/") else "/") + "zz").parent if "?" not in base and "#" not in base else B
+        elif via == "with_name":
+            B = B.with_name("tmp").with_name(B.name, keep_query=True, keep_fragment=True) if B.name else B
+        elif via == "with_fragment":
+            B = B.with_fragment("tmp").with_fragment(B.fragment or None)
+        elif via == "read-first":
+            B.raw_parts, B.parts, B.name, B.parent, hash(B), str(B)
     except ValueError:
         ctx.case(False, label="skipped:rejected-by-constructor")
         return
     bd, rd = comps(B), comps(R)
+    if not bd["scheme"]:
+        # RFC resolution presupposes an absolute base; scheme-less bases are outside the statement (urllib resolves them as a convention)
+        ctx.case(False, label="skipped:scheme-less-base")
+        return
     rpath = rd["path"] if rd["authority"] is None else ""
     segs = rpath.split("/")
     nontrivial = (bool(rpath) and not rpath.startswith("/") and any(s in (".", "..") for s in segs)) or "%" in bd["path"] or bd["fragment"] is not None
@@ -104,8 +118,8 @@ CHECKS = {"join": check_join}
 
 SEGS = ["a", "b", "c.d", "%2F", "%25", "%3F", "%23", "%C3%A9", "a%20b", "", ".", "..", "%2E", "g;x=1", "\xe9", "x:y", "@", "+", "%2B", "%2e%2E", "..."]
 AUTHS = ["h", "h.example:8080", "u:p@h", "[::1]", "[fe80::1%25eth0]:81", "u@h.example"]
-QUERIES = ["", "", "q", "k=v&x=%26", "a+b"]
-FRAGS = ["", "", "f", "f/../g", "%23"]
+QUERIES = ["", "", "q", "k=v&x=%26", "a+b", "caf%E9", "%FF=%C3"]
+FRAGS = ["", "", "f", "f/../g", "%23", "caf%E9", "x%C3", "%FF", "%ED%A0%80", "%41%7e"]
 
 
 def base_strategy():
@@ -164,7 +178,7 @@ def ref_strategy():
 
 
 def generated(ctx, backend, n):
-    ctx.given("join", {"base": base_strategy(), "r": ref_strategy()}, max_examples=n, fixed={"backend": backend})
+    ctx.given("join", {"base": base_strategy(), "r": ref_strategy(), "via": st.sampled_from([None, None, "parent", "with_name", "with_fragment", "read-first"])}, max_examples=n, fixed={"backend": backend})
     # arbitrary text in both operands
     txt = gen.text(surrogates=False, max_tokens=4, dots=True)
     ctx.given("join", {"base": gen.url_string(txt, schemes=st.sampled_from(["http", "https", "ftp", "file", "ws", "mailto", "x-y"])), "r": st.one_of(gen.url_string(txt), txt)},
@@ -185,6 +199,9 @@ def table(ctx, backend):
         ctx.run("join", backend=backend, base=RFC_BASE, r=r, literal=exp)
     for b, r in itertools.product(B_SHAPES, R_SHAPES):
         ctx.run("join", backend=backend, base=b, r=r)
+    for b, r, via in itertools.product(["file:/a/b/c", "file:///a/b", "sftp:/a", "http://h/a/b/c", "http:a/b/c", "file:///x/y", "http://h/a/b?q#f", "ws:/a/b/c/d"], ["g", "../g", "..", ".", "g/h", "?y", "#s", "#caf%E9", "", "/g"],
+                                       ["parent", "with_name", "with_fragment", "read-first"]):
+        ctx.run("join", backend=backend, base=b, r=r, via=via)
     # the 5.4 references against other bases (no literal expectation; the reference resolver decides)
     for b in ["http://a/b/c/d;p?q#frag", "https://u@a:8443/b/c/", "ftp://a", "file:///b/c/d", "http://a/b%2Fc/d%25?q"]:
         for r, _ in RFC_TABLE:
